@@ -24,7 +24,7 @@ from ..core import TranslateError, clist, cnat, cnats, cints, cz, copt, np_seed
 F6_KEY = 'enforce:empty-constrained-row'
 
 IMPORTS = ('From Coq Require Import List ZArith Bool Arith.\n'
-           'Require Import Base.C05_Np Model.C05_BC Model.C05_MPC Gen.C05Gen.')
+           'Require Import Base.C05_Np Model.C05_BC Model.C05_MPC Model.C05_Ext Gen.C05Gen.')
 
 DEFS = r'''
 Definition mk (ip : list Z) (ix : list nat) (d : list Z) : csr Z := {| indptr := ip; indices := ix; data := d |}.
@@ -36,22 +36,23 @@ Fixpoint ins_entry (e : nat * Z) (l : list (nat * Z)) :=
   match l with [] => [e] | f :: t => if fst e <=? fst f then e :: l else f :: ins_entry e t end.
 Definition canon (M : list (list (nat * Z))) := map (fun r => fold_right ins_entry [] r) M.
 Definition posf := gen_enforce_idx.
+Definition fl (s : option (list nat)) := option_map gen_flatten_array s.   (* _flatten_dofs on index arrays *)
 Definition run_enforce (c : csr Z * option (list Z) * option (list Z) * option (list nat) * option (list nat) * Z) :=
   let '(A, b, x, Is, Ds, diag) := c in
-  option_map (fun r => (canon (fst r), snd r)) (enforce_call Zops posf A b x Is Ds diag).
+  option_map (fun r => (canon (fst r), snd r)) (enforce_call Zops posf A b x (fl Is) (fl Ds) diag).
 Definition run_enforce_eig (c : csr Z * csr Z * option (list nat) * option (list nat) * Z) :=
   let '(A, B, Is, Ds, diag) := c in
-  option_map (fun r => (canon (fst r), canon (snd r))) (enforce_eig Zops posf A B Is Ds diag).
+  option_map (fun r => (canon (fst r), canon (snd r))) (enforce_eig Zops posf A B (fl Is) (fl Ds) diag).
 Definition run_condense (c : csr Z * option (list Z) * option (list Z) * option (list nat) * option (list nat)) :=
   let '(A, b, x, Is, Ds) := c in
-  option_map (fun r => let '(A', b', x', Is') := r in (canon A', b', x', Is')) (condense_call Zops (csr_rows A) b x Is Ds).
+  option_map (fun r => let '(A', b', x', Is') := r in (canon A', b', x', Is')) (condense_call Zops (csr_rows A) b x (fl Is) (fl Ds)).
 Definition run_condense_eig (c : csr Z * csr Z * option (list Z) * option (list nat) * option (list nat)) :=
   let '(A, B, x, Is, Ds) := c in
   option_map (fun r => let '(A', B', x', Is') := r in (canon A', canon B', x', Is'))
-    (condense_eig (csr_rows A) (csr_rows B) (snd (bc_defaults Zops (csr_nrows A) None x)) Is Ds).
+    (condense_eig (csr_rows A) (csr_rows B) (snd (bc_defaults Zops (csr_nrows A) None x)) (fl Is) (fl Ds)).
 Definition run_penalize (c : csr Z * option (list Z) * option (list Z) * option (list nat) * option (list nat) * Z) :=
   let '(A, b, x, Is, Ds, w) := c in
-  option_map (fun r => (canon (fst r), snd r)) (penalize_call Zops (csr_rows A) b x Is Ds w).
+  option_map (fun r => (canon (fst r), snd r)) (penalize_call Zops (csr_rows A) b x (fl Is) (fl Ds) w).
 Definition run_expand (c : list Z * list nat * list Z) := let '(x, Is, z) := c in gen_expand x Is z.
 Definition run_expand_eig (c : list Z * list nat * list (list Z)) := let '(x, Is, X) := c in gen_expand_eig x Is X.
 (* the zero pattern the generated arithmetic produces on an all-ones value array *)
@@ -129,10 +130,15 @@ def checksum(*objs):
         if o is None:
             h.update(b'N')
         elif sp.issparse(o):
-            for a in (o.data, o.indices, o.indptr):
+            if o.format in ('csr', 'csc'):
+                arrs = (o.data, o.indices, o.indptr)
+            else:
+                c = o.tocoo()
+                arrs = (c.data, c.row, c.col)
+            for a in arrs:
                 h.update(np.ascontiguousarray(a).tobytes())
                 h.update(str(a.dtype).encode())
-            h.update(repr(o.shape).encode())
+            h.update(repr(o.shape).encode() + o.format.encode())
         else:
             a = np.ascontiguousarray(o)
             h.update(a.tobytes())
@@ -172,11 +178,36 @@ def to_scipy(ip, ix, d, n):
     return sp.csr_matrix((np.array(d, dtype=float), np.array(ix, dtype=np.int32), np.array(ip, dtype=np.int32)), shape=(n, n))
 
 
-def rand_split(rng, n, allow_empty=True):
-    """a duplicate-free subset in random order, and which of I / D carries it"""
+def rand_split(rng, n, allow_empty=True, repeats=True):
+    """a subset in random order — every fourth time with REPEATED entries (an index array denotes a set) — and which
+    of I / D carries it"""
     k = rng.randint(0 if allow_empty else 1, n)
     S = rng.sample(range(n), k)
+    if repeats and S and rng.random() < 0.25:
+        for _ in range(rng.randint(1, 3)):
+            S.insert(rng.randrange(len(S) + 1), rng.choice(S))
     return S, rng.choice(['I', 'D'])
+
+
+def dedup(S):
+    out = []
+    for i in S:
+        if i not in out:
+            out.append(i)
+    return out
+
+
+FORMATS = ['csr', 'csr', 'csr', 'csc', 'coo', 'lil']
+
+
+def as_format(A, fmt):
+    return A if fmt == 'csr' else A.asformat(fmt)
+
+
+def canon_csr_lists(A):
+    """(indptr, indices, data) of the CSR conversion scipy makes of a non-CSR matrix (the model's input then)"""
+    C = A.tocsr()
+    return [int(v) for v in C.indptr], [int(v) for v in C.indices], [as_int(v) for v in C.data]
 
 
 def idx_array(rng, S):
@@ -216,9 +247,10 @@ def run(ctx):
                     'scipy spsolve / dense eigensolver (oracle only; no theorem speaks about them)']
     ctx.assumptions += ['values in a commutative ring with Leibniz equality (Z, any field); floats are corresponded only on '
                         'small integers where every operation is exact',
-                        'matrices have no duplicate stored entry inside a row (scipy canonical or unsorted, never unsummed) '
-                        'for enforce/penalize; condense needs no such assumption',
-                        'index sets are duplicate-free with entries in [0,n) (what DofsView.flatten / np.unique deliver)',
+                        'storage-level statements of enforce/penalize (which stored entry stays where) assume no duplicate stored entry '
+                        'inside a row; the dense-level theorems (C05_enforce_any_storage, C05_penalize_any_storage) and condense need no such assumption',
+                        'index lists have entries in [0,n); repeated entries denote a set (proved from the regenerated _flatten_dofs)',
+                        'non-CSR input enters the model through scipy tocsr (trusted, corresponded); dtype promotion of the expansion is runtime (oracle)',
                         'penalize is modelled with the weight w = 1/epsilon; the limit epsilon -> 0 is oracle only',
                         'mpc: S and M duplicate-free and disjoint, T with |S| rows, g of length |S| (what mpc checks or np.setdiff1d assumes)']
     ctx.cov['rule'] = ('random square CSR systems n=1..8 (thorough: ..12): empty rows, explicit zeros, unsorted columns, '
@@ -290,13 +322,19 @@ def _record_violation(ctx, key, what, data):
 def check_enforce_case(ctx, cases, state, n, csr, b, x, S, which, diag, rng, Sarg=None, view_lists=None, tag='rand'):
     """one enforce call with a vector (or absent) right-hand side: correspondence record + exact oracle"""
     ip, ix, d = csr
-    A = to_scipy(ip, ix, d, n)
+    fmt = rng.choice(FORMATS) if tag == 'rand' else 'csr'
+    A = as_format(to_scipy(ip, ix, d, n), fmt)
+    if fmt != 'csr':
+        ip, ix, d = canon_csr_lists(A)          # what scipy's conversion stores: the model's input
     bb = None if b is None else np.array(b, dtype=float)
     xx = None if x is None else np.array(x, dtype=float)
     Sarr = idx_array(rng, S) if Sarg is None else Sarg
-    D = S if which == 'D' else [i for i in range(n) if i not in S]
+    has_rep = len(set(S)) != len(S)
+    D = dedup(S) if which == 'D' else [i for i in range(n) if i not in S]
     before = checksum(A, bb, xx, Sarr if isinstance(Sarr, np.ndarray) else None)
     exc = None
+    ctx.hist('matrix_format', fmt)
+    ctx.hist('index_array_repeats', has_rep)
     try:
         out = call_enforce(A, bb, xx, Sarr, which, float(diag))
     except Exception as e:  # noqa: BLE001  (an exception on a valid input is a failing input, reported below)
@@ -308,7 +346,16 @@ def check_enforce_case(ctx, cases, state, n, csr, b, x, S, which, diag, rng, Sar
     ctx.hist('n', n)
     ctx.hist('enforce_empty_constrained_row', has_empty_D)
     rep = {'fn': 'enforce', 'n': n, 'indptr': ip, 'indices': ix, 'data': d, 'b': b, 'x': x, which: S, 'diag': diag,
-           'nontrivial': nontrivial, 'tag': tag}
+           'nontrivial': nontrivial, 'tag': tag, 'format': fmt}
+
+    def fkey(default):
+        if has_empty_D and fmt == 'csr':
+            return F6_KEY
+        if fmt != 'csr':
+            return 'enforce:non-csr-input'
+        if has_rep:
+            return 'enforce:repeated-indices'
+        return default
     if before != after:
         ctx.fail('no_mutation:enforce', 'enforce(overwrite=False) modified one of its arguments', rep)
     # expected by the property statement (exact integers)
@@ -318,7 +365,7 @@ def check_enforce_case(ctx, cases, state, n, csr, b, x, S, which, diag, rng, Sar
     exp_dense = [[(diag if j == i else 0) for j in range(n)] if i in D else dense[i] for i in range(n)]
     exp_b = None if b_eff is None else [x_eff[i] if i in D else b_eff[i] for i in range(n)]
     if exc is not None:
-        key = F6_KEY if has_empty_D else 'enforce:raises:' + type(exc).__name__
+        key = fkey('enforce:raises:' + type(exc).__name__)
         ctx.fail(key, f'enforce raises {type(exc).__name__}: {exc}',
                  dict(rep, expected_dense=exp_dense, expected_rhs=exp_b, got='exception ' + repr(exc)))
         got_term = 'RaisesMO'
@@ -335,17 +382,19 @@ def check_enforce_case(ctx, cases, state, n, csr, b, x, S, which, diag, rng, Sar
                 if not set(orig) <= set(rows2[i]):
                     bad = True
         if bad:
-            key = F6_KEY if has_empty_D else 'enforce:wrong-result:' + hashlib.sha1(repr(rep).encode()).hexdigest()[:10]
-            ctx.fail(key, 'enforce: constrained rows are not diag*e_i / other rows or right-hand side changed',
+            key = fkey('enforce:wrong-result:' + hashlib.sha1(repr(rep).encode()).hexdigest()[:10])
+            ctx.fail(key, 'enforce: constrained rows are not diag*e_i / other rows or right-hand side changed'
+                     + (f' (matrix given in {fmt} format)' if fmt != 'csr' else ''),
                      dict(rep, expected_dense=exp_dense, expected_rhs=exp_b, got_dense=got_dense, got_rhs=got_b))
         got_term = f'(Some ({c_rows(rows2)}, {c_ozs(got_b)}))'
         # overwrite=True: same result, returned objects are the arguments
-        A3 = to_scipy(ip, ix, d, n)
+        A3 = as_format(to_scipy(ip, ix, d, n), fmt)
         b3 = None if b is None else np.array(b, dtype=float)
         try:
             out3 = call_enforce(A3, b3, xx, Sarr, which, float(diag), overwrite=True)
             A4, b4 = (out3 if isinstance(out3, tuple) else (out3, None))
-            if A4 is not A3 or (b3 is not None and b4 is not b3) or canon_rows(A4) != rows2 or \
+            # (a matrix that is not in CSR format is converted; only a CSR argument is modified in place and returned)
+            if (fmt == 'csr' and A4 is not A3) or (b3 is not None and b4 is not b3) or canon_rows(A4) != rows2 or \
                     (b4 is not None and ints(b4) != got_b):
                 ctx.fail('enforce:overwrite-differs', 'enforce(overwrite=True) differs from overwrite=False or does not return '
                          'its arguments', rep)
@@ -371,19 +420,26 @@ def check_enforce_case(ctx, cases, state, n, csr, b, x, S, which, diag, rng, Sar
 
 def check_enforce_eig(ctx, cases, state, n, csrA, csrB, S, which, diag, rng):
     from skfem.utils import enforce
-    A = to_scipy(*csrA, n)
-    B = to_scipy(*csrB, n)
+    fa, fb_ = rng.choice(FORMATS), rng.choice(FORMATS)
+    A = as_format(to_scipy(*csrA, n), fa)
+    B = as_format(to_scipy(*csrB, n), fb_)
+    if fa != 'csr':
+        csrA = canon_csr_lists(A)
+    if fb_ != 'csr':
+        csrB = canon_csr_lists(B)
     Sarr = idx_array(rng, S)
-    D = S if which == 'D' else [i for i in range(n) if i not in S]
+    D = dedup(S) if which == 'D' else [i for i in range(n) if i not in S]
     before = checksum(A, B, Sarr)
-    has_empty_D = any(c[0][dd] == c[0][dd + 1] for dd in D for c in (csrA, csrB))
+    has_empty_D = any(c[0][dd] == c[0][dd + 1] for dd in D for c in (csrA, csrB)) and (fa, fb_) == ('csr', 'csr')
+    noncsr = (fa, fb_) != ('csr', 'csr')
     rep = {'fn': 'enforce(matrix rhs)', 'n': n, 'A': list(csrA), 'B': list(csrB), which: S, 'diag': diag,
            'nontrivial': n >= 2 and 0 < len(D) < n}
     ctx.count(('enforce_eig', n, csrA, csrB, S, which, diag), nontrivial=rep['nontrivial'])
     try:
         A2, B2 = enforce(A, B, diag=float(diag), **{which: Sarr})
     except Exception as e:  # noqa: BLE001
-        ctx.fail(F6_KEY if has_empty_D else 'enforce_eig:raises:' + type(e).__name__, f'enforce (matrix rhs) raises {e!r}', rep)
+        ctx.fail(F6_KEY if has_empty_D else ('enforce:non-csr-input' if noncsr else 'enforce_eig:raises:' + type(e).__name__),
+                 f'enforce (matrix rhs; formats {fa}/{fb_}) raises {e!r}', rep)
         cases['enforce_eig'].append((tup(c_csr(*csrA), c_csr(*csrB), *((c_onats(S), 'NoNats') if which == 'I' else ('NoNats', c_onats(S))),
                                          cz(diag)), 'RaisesMM', rep))
         return
@@ -395,7 +451,8 @@ def check_enforce_eig(ctx, cases, state, n, csrA, csrB, S, which, diag, rng):
     gA = [[as_int(v) for v in r] for r in A2.toarray()]
     gB = [[as_int(v) for v in r] for r in B2.toarray()]
     if gA != eA or gB != eB:
-        ctx.fail(F6_KEY if has_empty_D else 'enforce_eig:wrong-result', 'enforce (matrix rhs): stiffness rows not diag*e_i or mass '
+        ctx.fail(F6_KEY if has_empty_D else ('enforce:non-csr-input' if noncsr else 'enforce_eig:wrong-result'),
+                 f'enforce (matrix rhs; formats {fa}/{fb_}): stiffness rows not diag*e_i or mass '
                  'rows not zero or other rows changed', dict(rep, expected=[eA, eB], got=[gA, gB]))
     cases['enforce_eig'].append((tup(c_csr(*csrA), c_csr(*csrB), *((c_onats(S), 'NoNats') if which == 'I' else ('NoNats', c_onats(S))),
                                      cz(diag)), f'(Some ({c_rows(canon_rows(A2))}, {c_rows(canon_rows(B2))}))', rep))
@@ -404,14 +461,21 @@ def check_enforce_eig(ctx, cases, state, n, csrA, csrB, S, which, diag, rng):
 def check_condense_case(ctx, cases, state, n, csr, b, x, S, which, rng, Sarg=None, view_lists=None, solve_too=False):
     from skfem.utils import condense, solve
     ip, ix, d = csr
-    A = to_scipy(ip, ix, d, n)
+    fmt = rng.choice(['csr', 'csr', 'csr', 'csc', 'lil']) if not solve_too else 'csr'
+    A = as_format(to_scipy(ip, ix, d, n), fmt)
+    if fmt != 'csr':
+        ip, ix, d = canon_csr_lists(A)
     bb = None if b is None else np.array(b, dtype=float)
     xx = None if x is None else np.array(x, dtype=float)
     Sarr = idx_array(rng, S) if Sarg is None else Sarg
-    I = S if which == 'I' else [i for i in range(n) if i not in S]
-    D = [i for i in range(n) if i not in I] if which == 'I' else S
+    has_rep = len(set(S)) != len(S)
+    I = dedup(S) if which == 'I' else [i for i in range(n) if i not in S]
+    D = [i for i in range(n) if i not in I] if which == 'I' else dedup(S)
     nontrivial = n >= 2 and 0 < len(D) < n and any(ix[k] != i for i in range(n) for k in range(ip[i], ip[i + 1]))
-    rep = {'fn': 'condense', 'n': n, 'indptr': ip, 'indices': ix, 'data': d, 'b': b, 'x': x, which: S, 'nontrivial': nontrivial}
+    rep = {'fn': 'condense', 'n': n, 'indptr': ip, 'indices': ix, 'data': d, 'b': b, 'x': x, which: S, 'nontrivial': nontrivial,
+           'format': fmt}
+    ctx.hist('matrix_format', fmt)
+    ctx.hist('index_array_repeats', has_rep)
     ctx.count(('condense', n, ip, ix, d, b, x, S, which), nontrivial=nontrivial)
     ctx.hist('split_given_as', which)
     ctx.hist('nD', len(D))
@@ -427,6 +491,10 @@ def check_condense_case(ctx, cases, state, n, csr, b, x, S, which, rng, Sarg=Non
     else:
         AII, bI, xr, Ir = out
     Ir_l, xr_l = [int(i) for i in Ir], ints(xr)
+    if has_rep and (len(set(Ir_l)) != len(Ir_l) or sorted(Ir_l) != sorted(I)):
+        ctx.fail('condense:repeated-indices', 'condense with an index array that repeats an index: the repeated index is counted '
+                 'more than once (an index array denotes a set)', dict(rep, returned_I=Ir_l))
+        return
     # expand=False: the same system without (x, I)
     out2 = condense(A, bb, xx, expand=False, **{which: Sarr})
     if b_eff is None:
@@ -464,7 +532,7 @@ def check_condense_case(ctx, cases, state, n, csr, b, x, S, which, rng, Sarg=Non
         ok = all(y[i] == x_eff[i] for i in D) and all(
             sum(Fraction(dense[i][j]) * y[j] for j in range(n)) == b_eff[i] for i in I)
         if not ok:
-            ctx.fail('condense:solution:' + hashlib.sha1(repr(rep).encode()).hexdigest()[:10],
+            ctx.fail('condense:repeated-indices' if has_rep else 'condense:solution:' + hashlib.sha1(repr(rep).encode()).hexdigest()[:10],
                      'solving the condensed system exactly and expanding does not satisfy the original equations on I / x on D',
                      dict(rep, condensed_A=dII, condensed_b=got_bI, I=Ir_l, y=[str(v) for v in y]))
         if solve_too and len(Ir_l):
@@ -504,11 +572,14 @@ def check_penalize_case(ctx, cases, state, n, csr, b, x, S, which, k, rng):
     """epsilon = 2^-k so that 1/epsilon and x/epsilon are exact"""
     from skfem.utils import penalize
     ip, ix, d = csr
-    A = to_scipy(ip, ix, d, n)
+    fmt = rng.choice(FORMATS)
+    A = as_format(to_scipy(ip, ix, d, n), fmt)
+    if fmt != 'csr':
+        ip, ix, d = canon_csr_lists(A)
     bb = None if b is None else np.array(b, dtype=float)
     xx = None if x is None else np.array(x, dtype=float)
     Sarr = idx_array(rng, S)
-    D = S if which == 'D' else [i for i in range(n) if i not in S]
+    D = dedup(S) if which == 'D' else [i for i in range(n) if i not in S]
     w = 2 ** k
     rep = {'fn': 'penalize', 'n': n, 'indptr': ip, 'indices': ix, 'data': d, 'b': b, 'x': x, which: S, 'epsilon': f'2^-{k}',
            'nontrivial': n >= 2 and 0 < len(D) < n}
@@ -529,19 +600,21 @@ def check_penalize_case(ctx, cases, state, n, csr, b, x, S, which, k, rng):
         ctx.fail('penalize:wrong-result', 'penalize: diagonal of D not 1/epsilon / rhs not x/epsilon / other entries changed',
                  dict(rep, expected=[eA, eb], got=[gA, gb]))
     # overwrite=True: same result, the arguments are returned
-    A3 = to_scipy(ip, ix, d, n)
+    A3 = as_format(to_scipy(ip, ix, d, n), fmt)
     b3 = None if b is None else np.array(b, dtype=float)
     out3 = penalize(A3, b3, xx, epsilon=2.0 ** -k, overwrite=True, **{which: Sarr})
     A4, b4 = (out3 if isinstance(out3, tuple) else (out3, None))
-    if A4 is not A3 or (b3 is not None and b4 is not b3) or canon_rows(A4) != canon_rows(A2) or (b4 is not None and ints(b4) != gb):
+    if (fmt == 'csr' and A4 is not A3) or (b3 is not None and b4 is not b3) or canon_rows(A4) != canon_rows(A2) or (b4 is not None and ints(b4) != gb):
         ctx.fail('penalize:overwrite-differs', 'penalize(overwrite=True) differs from overwrite=False or does not return its arguments', rep)
     # matrix right-hand side: the mass matrix is returned unchanged (a copy)
     csrB = rand_csr(rng, n)
     Bm = to_scipy(*csrB, n)
     cb = checksum(Bm)
-    A5, B5 = penalize(to_scipy(ip, ix, d, n), Bm, epsilon=2.0 ** -k, **{which: Sarr})
+    A5, B5 = penalize(as_format(to_scipy(ip, ix, d, n), fmt), Bm, epsilon=2.0 ** -k, **{which: Sarr})
     if checksum(Bm) != cb or B5 is Bm or canon_rows(B5) != canon_rows(Bm) or canon_rows(A5) != canon_rows(A2):
         ctx.fail('penalize:matrix-rhs', 'penalize with a matrix right-hand side: mass matrix changed / not copied, or stiffness differs', rep)
+    if fmt in ('coo', 'lil'):
+        return            # setdiag of these formats stores the diagonal differently; only the dense result (checked above) is specified
     cases['penalize'].append((tup(c_csr(ip, ix, d), c_ozs(b), c_ozs(x), *((c_onats(S), 'NoNats') if which == 'I' else ('NoNats', c_onats(S))),
                                   cz(w)), f'(Some ({c_rows(canon_rows(A2))}, {c_ozs(gb)}))', rep))
 
@@ -604,8 +677,8 @@ def check_noncanonical(ctx, n, rng):
     A = to_scipy(ip, ix, d, n)
     dense = dense_of(ip, ix, d, n)
     S, which = rand_split(rng, n)
-    D = S if which == 'D' else [i for i in range(n) if i not in S]
-    I = [i for i in range(n) if i not in D] if which == 'D' else S
+    D = dedup(S) if which == 'D' else [i for i in range(n) if i not in S]
+    I = [i for i in range(n) if i not in D] if which == 'D' else dedup(S)
     b = [rng.randint(-9, 9) for _ in range(n)]
     x = [rng.randint(-9, 9) for _ in range(n)]
     bb, xx, Sarr = np.array(b, dtype=float), np.array(x, dtype=float), idx_array(rng, S)
@@ -629,7 +702,7 @@ def check_noncanonical(ctx, n, rng):
         eII = [[dense[i][j] for j in Il] for i in Il]
         ebI = [b[i] - sum(dense[i][j] * x[j] for j in D) for i in Il]
         if sorted(Il) != sorted(I) or ([[as_int(v) for v in r] for r in AII.toarray()] if Il else []) != eII or ints(bI) != ebI:
-            ctx.fail('condense:noncanonical', 'condense on a CSR matrix with duplicate entries: wrong dense result', rep)
+            ctx.fail('condense:repeated-indices' if len(set(S)) != len(S) else 'condense:noncanonical', 'condense on a CSR matrix with duplicate entries: wrong dense result', rep)
     except Exception as e:  # noqa: BLE001
         ctx.fail(F6_KEY if has_empty_D else 'noncanonical:raises:' + type(e).__name__, f'{type(e).__name__}: {e} on a CSR matrix with duplicate entries', rep)
     if checksum(A, bb, xx, Sarr) != before:
@@ -651,16 +724,22 @@ def check_complex_case(ctx, state, n, rng):
     k = rng.randint(1, n - 1)
     D = rng.sample(range(n), k)
     I = [i for i in range(n) if i not in D]
-    given = rng.random() < 0.4
-    x = np.array([complex(rng.randint(-5, 5), rng.randint(-5, 5)) for _ in range(n)]) if given else None
-    xref = x if given else np.zeros(n, dtype=complex)
+    mode = rng.choice(['omitted', 'omitted', 'given', 'real'])
+    given = mode != 'omitted'
+    if mode == 'given':
+        x = np.array([complex(rng.randint(-5, 5), rng.randint(-5, 5)) for _ in range(n)])
+    elif mode == 'real':                         # real prescribed values (float array) for a complex system
+        x = np.array([float(rng.randint(-5, 5)) for _ in range(n)])
+    else:
+        x = None
+    xref = x.astype(complex) if given else np.zeros(n, dtype=complex)
     rep = {'fn': 'complex system', 'n': n, 'indptr': ip, 'indices': ix, 'data': [[float(v.real), float(v.imag)] for v in data],
-           'b': [[float(v.real), float(v.imag)] for v in b], 'x': None if x is None else [[float(v.real), float(v.imag)] for v in x],
+           'b': [[float(v.real), float(v.imag)] for v in b], 'x': None if x is None else [[float(np.real(v)), float(np.imag(v))] for v in x], 'x_dtype': None if x is None else str(x.dtype),
            'D': D}
     ctx.count(('complex', n, ip, ix, rep['data'], rep['b'], rep['x'], D), nontrivial=True)
-    ctx.hist('complex_x', 'given' if given else 'omitted')
+    ctx.hist('complex_x', mode)
     Darr, Iarr = idx_array(rng, D), idx_array(rng, I)
-    key = 'condense:complex:x-' + ('given' if given else 'omitted')
+    key = 'condense:complex:x-' + mode
     kw = {} if x is None else {'x': x}
     before = checksum(A, b, x, Darr)
     scale = max(1.0, float(np.max(np.abs(b))))
@@ -693,6 +772,12 @@ def check_complex_case(ctx, state, n, rng):
             ctx.fail(key + ':expansion', 'solve_linear expansion with the (x, I) returned by condense does not keep a complex solution '
                      f'(x dtype {np.asarray(xr).dtype}, result dtype {np.asarray(y).dtype})',
                      dict(rep, z=[[float(v.real), float(v.imag)] for v in z], got=[[float(v.real), float(v.imag)] for v in np.asarray(y, dtype=complex)]))
+        from skfem.utils import solve_eigen
+        X = np.array([[complex(rng.randint(-9, 9), rng.randint(-9, 9)) for _ in range(2)] for _ in Ir]).reshape(len(Ir), 2)
+        L, Y = solve_eigen(AII, bI, xr, Ir, solver=lambda A_, M_, **kw_: (np.zeros(2), X))
+        if not (np.array_equal(np.asarray(Y)[np.asarray(Ir)], X) and np.array_equal(np.asarray(Y)[D], np.tile(xref[D][:, None], (1, 2)))):
+            ctx.fail(key + ':eigen-expansion', 'solve_eigen expansion does not keep complex eigenvectors '
+                     f'(x dtype {np.asarray(xr).dtype}, result dtype {np.asarray(Y).dtype})', rep)
     if checksum(A, b, x, Darr) != before:
         ctx.fail('no_mutation:complex', 'an argument of condense/enforce/penalize was modified (complex system)', rep)
     state['complex_maxdisc'] = max(state.get('complex_maxdisc', 0.0), worst)
@@ -797,7 +882,7 @@ def _gen_random(ctx, cases, state):
             check_enforce_eig(ctx, cases, state, n, csr, csrB, S, which, diag, rng)
             check_condense_eig(ctx, cases, state, n, csr, csrB, xo, S, which, rng)
             check_penalize_case(ctx, cases, state, n, csr, bo, xo, S, which, rng.randint(0, 6), rng)
-            I = S if which == 'I' else [i for i in range(n) if i not in S]
+            I = dedup(S) if which == 'I' else [i for i in range(n) if i not in S]
             rng.shuffle(I)
             z = [rng.randint(-20, 20) for _ in I]
             X = [[rng.randint(-20, 20) for _ in I] for _ in range(rng.randint(0, 3))]
@@ -811,7 +896,7 @@ def _gen_random(ctx, cases, state):
         b = [rng.randint(-9, 9) for _ in range(n)]
         x = [rng.randint(-9, 9) for _ in range(n)]
         check_condense_case(ctx, cases, state, n, csr, b, x, S, which, rng, solve_too=True)
-        D = S if which == 'D' else [i for i in range(n) if i not in S]
+        D = dedup(S) if which == 'D' else [i for i in range(n) if i not in S]
         if 0 < len(D) < n:
             check_penalize_limit(ctx, state, n, csr, b, x, D, rng)
             if it % 4 == 0:
